@@ -627,7 +627,39 @@ func pickSubset(r *gen.Rand, m *model, shape string) []string {
 func runRCSub(c *mon.Case) {
 	r := c.R
 	m := genNt(r, r.Chance(0.6))
-	sb, src, mode := build(c, m, r.PickStr(buildModes))
+	var sb, src align.SeqBag
+	var mode string
+	if len(m.rows) >= 2 && r.Chance(0.1) {
+		// the input gives one name twice: the second row is stored under <name>_0001 (documented renaming) and the
+		// two rows are addressed by their two names
+		i := r.Intn(len(m.rows) - 1)
+		j := r.Range(i+1, len(m.rows)-1)
+		renamed := m.rows[i].Name + "_0001"
+		if m.index(renamed) < 0 && strings.Count(showNames(m), m.rows[i].Name) >= 1 {
+			sb = newContainer(m.aligned, NT)
+			ok := true
+			for k, row := range m.rows {
+				nm := row.Name
+				if k == j {
+					nm = m.rows[i].Name
+				}
+				if err := sb.AddSequence(nm, row.Seq, row.Comment); err != nil {
+					ok = false
+				}
+			}
+			if ok {
+				m.rows[j].Name = renamed
+				m.alpha = sb.Alphabet()
+				mode = "name-given-twice"
+				c.Count("rcsub:name-given-twice")
+			} else {
+				sb = nil
+			}
+		}
+	}
+	if sb == nil {
+		sb, src, mode = build(c, m, r.PickStr(buildModes))
+	}
 	shape := subsetShapes[c.Idx%len(subsetShapes)]
 	args := pickSubset(r, m, shape)
 	c.Input(inputOf(m, map[string]interface{}{"op": "ReverseComplementSequences", "names": args, "shape": shape, "build": mode}))
@@ -1877,4 +1909,12 @@ func main() {
 		{Name: "concurrent", Quick: 64, Thorough: 1200, Race: true, Run: func(c *mon.Case) { conc.Run(c, "strand") }},
 		{Name: "cli", Quick: 376, Thorough: 3200, Serial: true, Run: runCli},
 	})
+}
+
+func showNames(m *model) string {
+	var b strings.Builder
+	for _, r := range m.rows {
+		b.WriteString(r.Name + "\x00")
+	}
+	return b.String()
 }
